@@ -112,6 +112,7 @@ theorem last_sden {m : SM σ α} {cost : σ → Nat} {s : σ} {L : List (α × N
     (h : SDen strict m cost s L t) :
     ∃ F, ∀ fuel, F ≤ fuel →
       (last m (n : Int) true fuel s).1 = outOf t ((Seq.lastN n (L.map Prod.fst)).map some) := by
+  have _tie := Skeleton.Tie.stLast
   obtain ⟨F, hF⟩ := lastLoop_sden n h
   refine ⟨F, fun fuel hf => ?_⟩
   have h1 := hF fuel hf (List.replicate n none) 0
